@@ -358,7 +358,7 @@ func (o *Origins) IsFailureReturn(r *ssa.Return) bool {
 }
 
 // isNonNilErrorAt: the error value ev, returned by r, is certainly non-nil.
-func (o *Origins) isNonNilErrorAt(ev ssa.Value, r *ssa.Return) bool {
+func (o *Origins) isNonNilErrorAt(ev ssa.Value, r ssa.Instruction) bool {
 	if isNilConst(ev) {
 		return false
 	}
@@ -366,7 +366,7 @@ func (o *Origins) isNonNilErrorAt(ev ssa.Value, r *ssa.Return) bool {
 	if prm, ok := ev.(*ssa.Parameter); ok && o.caller != nil && o.call != nil && !o.call.Common().IsInvoke() {
 		for i, p := range o.Fn.Params {
 			if p == prm && i < len(o.call.Common().Args) {
-				if o.caller.isNonNilErrorAt(o.call.Common().Args[i], nil) {
+				if o.caller.isNonNilErrorAt(o.call.Common().Args[i], o.call) {
 					return true
 				}
 			}
@@ -399,8 +399,22 @@ func (o *Origins) isNonNilErrorAt(ev ssa.Value, r *ssa.Return) bool {
 		case "errors.New", "fmt.Errorf":
 			return true
 		}
+		// a helper that is new on this tree and returns an error on every way out: one it builds, or the one it was
+		// handed (`return nil, m.restore(id, err)` behind `err != nil`)
+		if callee := c.Call.StaticCallee(); callee != nil && callee.Blocks != nil && o.p.IsNewFunc(callee) && callee.Signature.Results().Len() == 1 && o.depth < 4 {
+			oc := o.Enter(callee, c)
+			all := true
+			for _, r2 := range Returns(callee) {
+				if len(r2.Results) != 1 || !oc.isNonNilErrorAt(r2.Results[0], r2) {
+					all = false
+				}
+			}
+			if all && len(Returns(callee)) > 0 {
+				return true
+			}
+		}
 	}
-	if r == nil {
+	if r == nil || r.Parent() != o.Fn {
 		return false
 	}
 	// `if err != nil { return ..., err }`: the return is only reachable through !errnil(err)
